@@ -167,10 +167,128 @@ theorem fontFromBytes_sat (hg : glyphZeroGuard = true) (d : Bytes) : (fontFromBy
       omega
     apply Sat.bind (rdU16s_sat (by omega)); intro m16 _
     split
-    · exact loadPsf1_sat hg d h4
+    · apply Sat.bind (rd_sat (by omega)); intro cs _
+      split
+      · trivial
+      · exact loadPsf1_sat hg d h4
     · apply Sat.bind (rdU32_sat (by omega)); intro m32 _
       split
       · exact loadPsf2_sat hg d
       · exact loadPlain_sat hg d
+
+
+/-! ## no accepted font has a zero dimension -/
+theorem asI32_ne_zero {x : Nat} (h1 : 1 ≤ x) (h2 : x < 4294967296) : asI32 x ≠ 0 := by
+  unfold asI32
+  have : x % 4294967296 = x := Nat.mod_eq_of_lt h2
+  simp only [this]
+  split <;> omega
+
+def SizeOk (f : Font) : Prop := f.w ≠ 0 ∧ f.h ≠ 0
+
+theorem loadPsf1_size (hg : glyphZeroGuard = true) (d : Bytes) (hd : 4 ≤ d.size) (hcs : byteAt d 3 ≠ 0) : (loadPsf1 d).Sat SizeOk := by
+  unfold loadPsf1
+  apply Sat.bind (rd_sat (by omega)); intro mode _
+  apply Sat.bind (rd_sat_eq (by omega)); intro charsize hc
+  apply Sat.bind (slice_sat (by omega)); intro _ _
+  apply Sat.bind (glyphsFrom_sat hg charsize d 4 (by omega)); intro n hn
+  simp only [sat_pure, SizeOk, mkFont]
+  subst hc
+  constructor <;> omega
+
+theorem loadPlain_size (hg : glyphZeroGuard = true) (d : Bytes) (h4 : 4 ≤ d.size) (hbig : d.size < 1099511627776) : (loadPlain d).Sat SizeOk := by
+  unfold loadPlain
+  have hp : plainGlyphs = 256 := rfl
+  split
+  · trivial
+  · rename_i hm
+    apply Sat.bind (glyphsFrom_sat hg _ d 0 (by omega)); intro n hn
+    simp only [sat_pure, SizeOk, mkFont]
+    refine ⟨by omega, asI32_ne_zero ?_ ?_⟩
+    · rw [hp] at hm ⊢; omega
+    · rw [hp]; omega
+
+theorem loadPsf2_size (hg : glyphZeroGuard = true) (d : Bytes) : (loadPsf2 d).Sat SizeOk := by
+  unfold loadPsf2
+  split
+  · trivial
+  · rename_i hlen
+    have h32 : 32 ≤ d.size := by
+      have : psf2HeaderLen = 32 := rfl
+      omega
+    apply Sat.bind (rdU32_sat (by omega)); intro version _
+    split
+    · trivial
+    · apply Sat.bind (rdU32_sat (by omega)); intro hs hhs
+      apply Sat.bind (rdU32_sat (by omega)); intro len _
+      apply Sat.bind (rdU32_sat (by omega)); intro cs _
+      apply Sat.bind (rdU32_sat (by omega)); intro height hheight
+      apply Sat.bind (rdU32_sat (by omega)); intro width hwidth
+      have hb := mul_i32_bound (asI32 len) (asI32 cs) (asI32_range len) (asI32_range cs)
+      apply Sat.bind (chkI64_sat (by omega)); intro prod hprod
+      apply Sat.bind (chkI64_sat (by omega)); intro expected hexp
+      apply Sat.bind (chkU64_sat (by omega)); intro w7 hw7
+      have hrb : height * (w7 / 8) < 18446744073709551616 := by
+        have h1 : w7 / 8 ≤ 536870912 := by omega
+        have h2 : height * (w7 / 8) ≤ 4294967296 * 536870912 := Nat.mul_le_mul (by omega) h1
+        omega
+      apply Sat.bind (chkU64_sat hrb); intro rowBytes hrow
+      split
+      · trivial
+      · rename_i hc
+        have hl : ¬ asI32 len < 0 := fun h => hc (Or.inl h)
+        have hcs : ¬ asI32 cs ≤ 0 := fun h => hc (Or.inr (Or.inl h))
+        have hex : expected = (d.size : Int) := by
+          apply Classical.byContradiction
+          intro h; exact hc (Or.inr (Or.inr (Or.inl h)))
+        have hrw : asI32 cs = (rowBytes : Int) := by
+          apply Classical.byContradiction
+          intro h; exact hc (Or.inr (Or.inr (Or.inr h)))
+        subst hprod; subst hexp; subst hrow; subst hw7
+        -- charsize = height * ((width + 7) / 8) > 0: neither factor is 0
+        have hpos : 0 < height * ((width + 7) / 8) := by omega
+        have hh1 : 1 ≤ height := by
+          rcases Nat.eq_zero_or_pos height with h0 | h0
+          · rw [h0] at hpos; simp at hpos
+          · exact h0
+        have hw1 : 1 ≤ width := by
+          rcases Nat.eq_zero_or_pos width with h0 | h0
+          · rw [h0] at hpos; simp at hpos
+          · exact h0
+        have hge : asI32 len * 1 ≤ asI32 len * asI32 cs := Int.mul_le_mul_of_nonneg_left (by omega) (by omega)
+        have hnn : 0 ≤ asI32 len * asI32 cs := Int.mul_nonneg (by omega) (by omega)
+        apply Sat.bind (slice_sat (by omega)); intro _ _
+        apply Sat.bind (glyphsFrom_sat hg height d hs (by omega)); intro n hn
+        simp only [sat_pure, SizeOk, mkFont]
+        exact ⟨asI32_ne_zero hw1 hwidth, asI32_ne_zero hh1 hheight⟩
+
+theorem fontFromBytes_sizeSat (hg : glyphZeroGuard = true) (hz : psf1ZeroRejected = true) (d : Bytes) (hbig : d.size < 1099511627776) :
+    (fontFromBytes d).Sat SizeOk := by
+  unfold fontFromBytes
+  split
+  · trivial
+  · rename_i hlen
+    have h4 : 4 ≤ d.size := by
+      have : fontMinLen = 4 := rfl
+      omega
+    apply Sat.bind (rdU16s_sat (by omega)); intro m16 _
+    split
+    · apply Sat.bind (rd_sat_eq (by omega)); intro cs hcs
+      rw [hz]
+      by_cases h0 : cs = 0
+      · simp only [h0, Bool.true_and, beq_self_eq_true, if_true]; trivial
+      · have : (cs == 0) = false := by simpa using h0
+        simp only [this, Bool.and_false, Bool.false_eq_true, if_false]
+        exact loadPsf1_size hg d h4 (by rw [← hcs]; exact h0)
+    · apply Sat.bind (rdU32_sat (by omega)); intro m32 _
+      split
+      · exact loadPsf2_size hg d
+      · exact loadPlain_size hg d h4 hbig
+
+theorem fontFromBytes_size (hg : glyphZeroGuard = true) (hz : psf1ZeroRejected = true) (d : Bytes) (hbig : d.size < 1099511627776)
+    (f : Font) (h : fontFromBytes d = .ok f) : f.w ≠ 0 ∧ f.h ≠ 0 := by
+  have := fontFromBytes_sizeSat hg hz d hbig
+  rw [h] at this
+  exact this
 
 end IcyVerif.FontLoad
